@@ -1805,6 +1805,7 @@ int femmcli::LuaMagneticsCommands::luaModifyCircuitProperty(lua_State *L)
         if (!lua_isnil(L,3))
             newName = lua_tostring(L,3);
         prop->CircName = newName;
+        doc->updateCircuitMap();
         break;
     }
     case 1:
@@ -1973,6 +1974,7 @@ int femmcli::LuaMagneticsCommands::luaModifyPointProperty(lua_State *L)
     {
     case 0:
         p->PointName = lua_tostring(L,3);
+        doc->updateNodeMap();
         break;
     case 1:
         p->A = lua_tonumber(L,3);
